@@ -183,7 +183,7 @@ func verifHarness_C05_pool_2x2_T() {
 }
 
 func verifHarness_C05_goroutine_3x1_closer_T() {
-	verifBound("preemptions", 3)
-	verifC05(1, 3, 1, true, true, false, false, 3)
+	verifBound("preemptions", 1)
+	verifC05(1, 3, 1, true, true, false, false, 1)
 	verifAssert(false, "witness")
 }
